@@ -259,4 +259,61 @@ def gen_struct(tier, rng):
                 m.fail = None
 
 
-GENS = {'StructParam.__set_name__': gen_struct, 'Module.checkLimits': gen_checkLimits, 'Dispatcher.handle_change': gen_change}
+def gen_floatenum(tier, rng):
+    """float parameter bound to an enum index, label sets {3 ranges, 4 ranges with explicit indices, descending values}, devices that
+    store the requested index / coerce it (upwards to the next even index, or to a fixed one) : random histories (length 8) of float
+    writes (on, between and outside the allowed values), index writes, index reads, driver-side index assignments"""
+    import types
+    from bounded import nodelib
+    from frappy.core import Module, Parameter
+    from frappy.extparams import FloatEnumParam
+    label_sets = [['500uV', '20mV', '1V'], [(1, '1mA'), (2, '10mA'), (5, '100mA'), (6, '1A')], ['1m', '1mm', '1um']]
+    units = ['V', 'A', 'm']
+    for labels, unit in zip(label_sets, units):
+        for coerce in ('none', 'up', 'fixed'):
+            class Dev(Module):
+                rng_ = FloatEnumParam('range', labels, unit, readonly=False)
+                _dev = None
+                asked = None
+
+                def read_rng__idx(self):
+                    return self._dev if self._dev is not None else self.rng__idx
+
+                def write_rng__idx(self, value):
+                    self.asked.append(value)
+                    self._dev = self._coerce(int(value))
+                    return self._dev
+            codes = sorted(Dev.rng_.valuedict)
+            Dev._coerce = {'none': lambda self, i: i, 'up': lambda self, i, codes=codes: codes[min(len(codes) - 1, codes.index(i) + codes.index(i) % 2)],
+                           'fixed': lambda self, i, codes=codes: codes[-1]}[coerce]
+            vals = sorted(Dev.rng_.valuedict.values())
+            offers = vals + [(a + b) / 2 for a, b in zip(vals, vals[1:])] + [vals[0] * 1.01, vals[-1] * 0.99, vals[0] + (vals[1] - vals[0]) * 0.4]
+            for h in range(12 if tier == 'quick' else 120):
+                srv = types.SimpleNamespace(dispatcher=types.SimpleNamespace(announce_update=lambda m, p: None),
+                                            secnode=types.SimpleNamespace(equipment_id='verif', name='node'))
+                m = Dev.__new__(Dev)
+                m.__init__('m', nodelib.quiet_logger(), {'description': ''}, srv)
+                m.asked = []
+                for step in range(8):
+                    kind = rng.choice(['wfloat', 'wfloat', 'widx', 'ridx', 'drv_idx', 'rfloat'])
+                    v = rng.choice(offers)
+                    i = rng.choice(codes)
+                    m.asked = []
+
+                    def op(m=m, kind=kind, v=v, i=i):
+                        if kind == 'wfloat':
+                            return m.write_rng_(v)
+                        if kind == 'widx':
+                            return m.write_rng__idx(i) if False else getattr(m, 'write_rng__idx')(i)
+                        if kind == 'ridx':
+                            return m.read_rng__idx()
+                        if kind == 'rfloat':
+                            return m.read_rng_() if hasattr(m, 'read_rng_') else m.rng_
+                        m.rng__idx = i
+                        return None
+                    yield dict(label=f'labels={labels} device={coerce} history {h} step {step}: {kind} v={v} i={i}', self=None, args={}, call=op,
+                               ghosts={'module': m, 'float_name': 'rng_', 'idx_name': 'rng__idx',
+                                       'requested': v if kind == 'wfloat' else None, 'asked_idx': m.asked})
+
+
+GENS = {'FloatEnumParam.__set_name__': gen_floatenum, 'StructParam.__set_name__': gen_struct, 'Module.checkLimits': gen_checkLimits, 'Dispatcher.handle_change': gen_change}
